@@ -113,12 +113,14 @@ theorem fastPath_le {lower upper : List α} {lo hi : α} (h : fastPath lower upp
 
 theorem clipRow_in : ∀ (ls us xs ys : List α), List.Forall₂ (· ≤ ·) ls us → clipRow ls us xs = .ok ys →
     RowIn ls us ys ∧ ys.length = xs.length
-  | _, _, [], ys, _, h => by
+  | [], [], [], ys, _, h => by
     unfold clipRow at h
     cases h
     exact ⟨by unfold RowIn; trivial, rfl⟩
-  | [], _, _ :: _, _, _, h => by simp [clipRow] at h
-  | _ :: _, [], _ :: _, _, hf, _ => by cases hf
+  | [], [], _ :: _, _, _, h => by simp [clipRow] at h
+  | [], _ :: _, _, _, hf, _ => by cases hf
+  | _ :: _, [], _, _, hf, _ => by cases hf
+  | _ :: _, _ :: _, [], _, _, h => by simp [clipRow] at h
   | l :: ls, u :: us, x :: xs, ys, hf, h => by
     rw [List.forall₂_cons] at hf
     unfold clipRow at h
@@ -132,20 +134,24 @@ theorem clipRow_in : ∀ (ls us xs ys : List α), List.Forall₂ (· ≤ ·) ls 
     · cases h
 
 theorem clipRow_id : ∀ (ls us xs : List α), RowIn ls us xs → clipRow ls us xs = .ok xs
-  | _, _, [], _ => by unfold clipRow; rfl
-  | [], _, _ :: _, h => by simp [RowIn] at h
-  | _ :: _, [], _ :: _, h => by simp [RowIn] at h
+  | [], [], [], _ => by unfold clipRow; rfl
+  | [], [], _ :: _, h => by simp [RowIn] at h
+  | [], _ :: _, _, h => by simp [RowIn] at h
+  | _ :: _, [], _, h => by simp [RowIn] at h
+  | _ :: _, _ :: _, [], h => by simp [RowIn] at h
   | l :: ls, u :: us, x :: xs, h => by
     unfold RowIn at h
     unfold clipRow
     rw [clipRow_id ls us xs h.2, clip1_id l u x h.1.1 h.1.2]
 
-/-- with all bounds equal, the per-feature loop computes what the scalar fast path computes -/
+/-- with all bounds equal, the per-feature path computes what the scalar fast path computes -/
 theorem clipRow_const : ∀ (ls us xs : List α) (lo hi : α), (∀ l ∈ ls, l = lo) → (∀ u ∈ us, u = hi) →
-    xs.length ≤ ls.length → ls.length = us.length → clipRow ls us xs = .ok (xs.map (clip1 lo hi))
-  | _, _, [], _, _, _, _, _, _ => by unfold clipRow; rfl
-  | [], _, _ :: _, _, _, _, _, h, _ => by simp at h
-  | _ :: _, [], _ :: _, _, _, _, _, _, h => by simp at h
+    xs.length = ls.length → ls.length = us.length → clipRow ls us xs = .ok (xs.map (clip1 lo hi))
+  | [], [], [], _, _, _, _, _, _ => by unfold clipRow; rfl
+  | [], [], _ :: _, _, _, _, _, h, _ => by simp at h
+  | [], _ :: _, _, _, _, _, _, _, h => by simp at h
+  | _ :: _, [], _, _, _, _, _, _, h => by simp at h
+  | _ :: _, _ :: _, [], _, _, _, _, h, _ => by simp at h
   | l :: ls, u :: us, x :: xs, lo, hi, h1, h2, h3, h4 => by
     unfold clipRow
     have e1 : l = lo := h1 l List.mem_cons_self
